@@ -45,6 +45,7 @@ type admitCase struct {
 	Policy    policySpec
 	Packets   [][]byte
 	ConnOf    []int // tcp: connection carrying each packet (0..2); ignored for udp
+	Seg       []int // tcp (in-memory): the server's k-th Read on a connection returns at most Seg[k mod len] octets - the client's stream arrives chopped at these offsets, also between the two length octets
 }
 
 type hdr struct{ id, bits, qd, an, ns, ar uint16 }
@@ -248,7 +249,10 @@ func runTCP(c admitCase) (outcome, error) {
 	res := make([]connRes, nconn)
 	var wg sync.WaitGroup
 	for k := 0; k < nconn; k++ {
-		cli, _ := lis.dial(40000 + k)
+		cli, srvEnd := lis.dial(40000 + k)
+		srvEnd.in.mu.Lock()
+		srvEnd.in.seg = c.Seg // nothing has been written yet: the server's first Read cannot have returned
+		srvEnd.in.mu.Unlock()
 		var stream []byte
 		for i, b := range c.Packets {
 			if c.connOf(i) == k {
@@ -631,6 +635,16 @@ func checkAdmit(c admitCase) error {
 	exp := make([]expect, len(c.Packets))
 	nontrivial := false
 	classes := []string{"transport=" + c.Transport, "policy=" + c.Policy.Kind, "batch=" + bucket(len(c.Packets))}
+	if c.Transport == "tcp" {
+		switch {
+		case len(c.Seg) == 0:
+			classes = append(classes, "tcp-reads=whole")
+		case c.Seg[0] == 1:
+			classes = append(classes, "tcp-reads=chopped", "tcp-first-read=1-octet")
+		default:
+			classes = append(classes, "tcp-reads=chopped")
+		}
+	}
 	for i, b := range c.Packets {
 		exp[i] = expectFor(c, b)
 		if len(exp[i].octets) >= 12 {
@@ -976,6 +990,10 @@ func genAdmit(t *rapid.T) admitCase {
 		c.Packets = append(c.Packets, genPacket(t))
 		c.ConnOf = append(c.ConnOf, rapid.IntRange(0, 2).Draw(t, "conn"))
 	}
+	if c.Transport == "tcp" && rapid.IntRange(0, 2).Draw(t, "chopped") > 0 {
+		// the stream reaches the server in pieces: every Read returns only a few octets
+		c.Seg = rapid.SliceOfN(rapid.SampledFrom([]int{1, 1, 1, 2, 3, 5, 12, 13, 64, 700}), 1, 6).Draw(t, "seg")
+	}
 	return c
 }
 
@@ -1078,7 +1096,23 @@ func eachTruncation(emit func(admitCase)) {
 	}
 }
 
+// eachSplit: a well-formed query (followed by a second one) arrives on a stream connection split at
+// every offset of its frame - after the first length octet in particular - and in 1..3-octet reads.
+func eachSplit(emit func(admitCase)) {
+	qs := fixedQueries()
+	for qi, q := range qs {
+		next := qs[(qi+1)%len(qs)]
+		for k := 1; k <= len(q)+3; k++ {
+			emit(admitCase{Transport: "tcp", Policy: policySpec{Kind: "default"}, Packets: [][]byte{q, next}, Seg: []int{k, 65535}})
+		}
+		for _, seg := range [][]int{{1}, {2}, {3}, {1, 2}, {2, 1}, {1, 1, 65535}} {
+			emit(admitCase{Transport: "tcp", Policy: policySpec{Kind: "default"}, Packets: [][]byte{q, next, q[:5], next}, Seg: seg})
+		}
+	}
+}
+
 func init() {
+	pbt.RegisterEnum(pbt.Enum[admitCase]{Name: "tcp-every-split", Exhaustive: true, Each: eachSplit, Check: checkAdmit})
 	pbt.Register(pbt.Sub[admitCase]{Name: "admission", Weight: 20, Gen: genAdmit, Check: checkAdmit})
 	pbt.RegisterEnum(pbt.Enum[admitCase]{Name: "header-matrix", Exhaustive: true, Each: eachHeader, Check: checkAdmit})
 	pbt.RegisterEnum(pbt.Enum[admitCase]{Name: "every-truncation", Exhaustive: true, Each: eachTruncation, Check: checkAdmit})
